@@ -1069,6 +1069,8 @@ pub mod net {
         pub out_len_at_read: Vec<usize>,
         /// fail writes once this many bytes have been written
         pub write_fail_after: Option<usize>,
+        /// outcome of the most recent read: 'd' data, 'w' would block, 't' timed out, 'e' end of stream, 'r' reset
+        pub last_read: char,
     }
 
     impl ScriptSock {
@@ -1088,6 +1090,7 @@ pub mod net {
                 timeouts_fired: 0,
                 out_len_at_read: vec![],
                 write_fail_after: None,
+                last_read: ' ',
             }))
         }
         fn read(&mut self, buf: &mut [u8]) -> Result<usize> {
@@ -1102,9 +1105,11 @@ pub mod net {
                     for b in buf.iter_mut().take(n) {
                         *b = self.cur.pop_front().unwrap();
                     }
+                    self.last_read = 'd';
                     return Ok(n);
                 }
                 if self.eof {
+                    self.last_read = 'e';
                     self.reads_after_eof += 1;
                     if self.reads_after_eof > 100_000 {
                         panic!("verif: more than 100000 reads after end of stream (reader does not terminate)");
@@ -1116,17 +1121,20 @@ pub mod net {
                     Some(Step::Timeout) => {
                         if self.read_timeout.is_some() && !self.nonblocking {
                             self.timeouts_fired += 1;
+                            self.last_read = 't';
                             return Err(Error::new(ErrorKind::WouldBlock, "verif: read timed out"));
                         }
                     }
                     Some(Step::Pending) => {
                         if self.nonblocking {
+                            self.last_read = 'w';
                             return Err(Error::new(ErrorKind::WouldBlock, "verif: would block"));
                         }
                     }
                     Some(Step::Eof) | None => self.eof = true,
                     Some(Step::Reset) => {
                         self.eof = true;
+                        self.last_read = 'r';
                         return Err(Error::new(ErrorKind::ConnectionReset, "verif: connection reset"));
                     }
                 }
